@@ -37,7 +37,7 @@ import traceback
 
 from harness.corr import versions_lib as L
 
-PROPERTIES = ["C17", "C09", "C01"]
+PROPERTIES = ["C17", "C09", "C01", "C11"]
 ORDER = 45
 
 # unknown function ids: since the D9 repair the KeyError of `_idToMethod[funcID]` is caught in `__doApplyCommand`,
@@ -56,7 +56,10 @@ SIG_DOWN = "syncobj.doApplyCommand:enabled-version-decreased"
 # what the C01 plan reports: a node caught up by snapshot / dump does not know the enabled version, or applies entries
 # although the cluster is on a version its code lacks (its state is then not the execution of the prefix it reports)
 C01_SIGS = (SIG_LOST, SIG_LOST_USER, SIG_BLOCKED, SIG_AFTER)
-PLAN_SIGS = {"C09": RESTORE_SIGS, "C01": C01_SIGS}
+# what the C11 plan reports: a command executed twice / executed although an unsupported version entry precedes it
+# (C11: "every replica executes the method exactly once with equal arguments")
+C11_SIGS = (SIG_TWICE, SIG_AFTER)
+PLAN_SIGS = {"C09": RESTORE_SIGS, "C01": C01_SIGS, "C11": C11_SIGS}
 SIG_TABLE_APPLY = "syncobj.doApplyCommand:call-not-newest-version-le-enabled"
 SIG_PAIR = "syncobj.applyLogEntries:old-and-new-code-run-different-method"
 SIG_GUARD = "syncobj.setCodeVersion:unsupported-or-lower-version-accepted"
@@ -782,7 +785,7 @@ def run(ctx):
     argc = [10000]
     # C09 / C01 plans: only the dump / load / install families, only that property's signatures (PLAN_SIGS)
     c09 = ctx.pid in PLAN_SIGS
-    n_handler = 0 if c09 else ctx.scale(1500, 24000)
+    n_handler = (ctx.scale(700, 8000) if ctx.pid == "C11" else 0) if c09 else ctx.scale(1500, 24000)
     n_pair = ctx.scale(70, 3000) if c09 else ctx.scale(500, 8000)
     cases = 0
     runs = []
@@ -861,7 +864,9 @@ def run(ctx):
               "m1_checked", "m3_checked", "m4_checked", "follower_from_dump", "follower_from_log", "load_after_switch",
               "load_enabled_gt_self", "load_clear_kept", "load_clear_installed", "load_ev_cbOpen", "hook_calls", "m5_checked", "m6_checked", "cb_lowerVersion"] + (["ev_unknownId", "cb_keyError"] if INCLUDE_UNKNOWN_IDS else [])
     floors += ["load_self_gt_enabled", "load_installed"]
-    if ctx.pid == "C01":
+    if ctx.pid == "C11":
+        floors = ["m1_checked"]
+    elif ctx.pid == "C01":
         floors = ["op_load", "dump_made", "load_installed", "follower_from_dump", "load_after_switch", "load_enabled_gt_self",
                   "m3_checked", "load_clear_installed"]
     elif c09:
